@@ -346,3 +346,39 @@ Theorem ident_falsy_refuted :
   parent as_is t0tab [] None fwd = Val (Some (1, 0)) /\ parent ident_falsy_variant t0tab [] None fwd = Val None /\
   parents as_is 5 t0tab [] [] None fwd = Val (Some [1]) /\ parents ident_falsy_variant 5 t0tab [] [] None fwd = Val (Some []).
 Proof. repeat split; vm_compute; reflexivity. Qed.
+
+(* ------------------------------------------------------------ copies of a Process object *)
+Lemma copy_obj_same : forall o, copy_obj o = o.
+Proof. intros [p i c k]. reflexivity. Qed.
+
+(* a copy preserves the identity (as an option: None stays None, tick 0 stays tick 0) and the
+   create_time() cache; the four answers on a copy are those on the original, in every table,
+   for every caller state, whatever vanishes, with or without any of the repairs *)
+Theorem copy_same_answers : forall fx t gone goneb cache fuel o,
+  ident_opt (copy_obj o) = ident_opt o /\ o_ctime (copy_obj o) = o_ctime o /\
+  children_direct fx t gone (copy_obj o) = children_direct fx t gone o /\
+  children_rec fx fuel t gone (copy_obj o) = children_rec fx fuel t gone o /\
+  parent fx t gone cache (copy_obj o) = parent fx t gone cache o /\
+  parents fx fuel t gone goneb cache (copy_obj o) = parents fx fuel t gone goneb cache o.
+Proof. intros fx t gone goneb cache fuel o. rewrite copy_obj_same. repeat split; reflexivity. Qed.
+
+(* in particular the copy of a STALE original (its PID now belongs to a younger or older
+   process) raises NoSuchProcess from all four calls, like the original: it never describes the
+   tree around the new owner of the PID *)
+Theorem copy_of_stale_raises : forall t gone goneb cache fuel o, recycled_b t o = true ->
+  children_direct as_is t gone (copy_obj o) = Exc NoSuchProcess /\
+  children_rec as_is fuel t gone (copy_obj o) = Exc NoSuchProcess /\
+  parent as_is t gone cache (copy_obj o) = Exc NoSuchProcess /\
+  parents as_is fuel t gone goneb cache (copy_obj o) = Exc NoSuchProcess.
+Proof.
+  intros t gone goneb cache fuel o H. rewrite copy_obj_same.
+  destruct (children_recycled as_is fuel t gone o H) as [A B].
+  assert (P : parent as_is t gone cache o = Exc NoSuchProcess)
+    by (unfold parent; cbn [fx_parent_reuse as_is]; rewrite (recycled_raises t o H); reflexivity).
+  repeat split; [exact A | exact B | exact P | unfold parents; rewrite P; reflexivity].
+Qed.
+
+(* deepcopy / pickle create no object in the code as it is *)
+Theorem no_deep_copy : forall o, copy_result DeepCopy o = Exc TypeError /\ copy_result PickleRoundTrip o = Exc TypeError
+                                 /\ copy_result ShallowCopy o = Val o.
+Proof. intros o. repeat split. cbn [copy_result]. rewrite copy_obj_same. reflexivity. Qed.
